@@ -691,3 +691,39 @@ def rule_file_level_commands(rep: Report, repo: Repo, rule: str) -> None:
                   f"{k}() outside any function/macro/class makes the listener raise ({'; '.join(sorted(set(crashes)))[:120]}): a valid "
                   f"script is rejected", witness=f"{k}(...) as the first command of a file")
     rep.floor(rule, 8, "command kinds at file level")
+
+
+def rule_optional_documentation(rep: Report, repo: Repo, rule: str) -> None:
+    """An element of the definition stack carries its documentation object or None (a definition that is tracked but not
+    documented: the implementation of a test or member, a definition whose switch is off).  Reading an attribute *through* that
+    field without having established that it is there raises AttributeError on a valid file."""
+    import ast as _ast
+    from ..model import guards_of, guard_atoms, norm
+    from .. import roles
+    rep.rule(rule, "every `<element>.documentation.<attr>` in the listener is guarded by isinstance(<element>.documentation, ...), "
+                   "`<element>.documentation is not None` or the element's should_document flag")
+    cls = roles.aggregator_class(repo)
+    ci = repo.cls(cls)
+    m = repo.module(ci.module)
+    # the optional fields of the stack element record
+    dc = repo.cls("DefinitionCommand") if repo.has_class("DefinitionCommand") else None
+    opt_fields = {f.name for f in (dc.own_fields if dc else []) if "None" in f.annotation or "Optional" in f.annotation} or {"documentation"}
+    n = 0
+    for k in [k for k in repo.mro(cls) if k.module == ci.module]:
+        for mname, fn in k.methods.items():
+            for node in _ast.walk(fn):
+                if not (isinstance(node, _ast.Attribute) and isinstance(node.value, _ast.Attribute) and node.value.attr in opt_fields):
+                    continue
+                base = norm(node.value)
+                if base.startswith("self.") and base.count(".") == 1:
+                    continue
+                n += 1
+                atoms = guard_atoms(guards_of(fn, node, m.parents))
+                owner = norm(node.value.value)
+                ok = any((t.startswith(f"isinstance({base},") and pol) or (t == f"{base} is None" and not pol) or
+                         (t == f"{base} is not None" and pol) or (t == base and pol) or (t == f"{owner}.should_document" and pol)
+                         for t, pol in atoms)
+                rep.check(ok, rule, f"{ci.module}:{k.name}.{mname}", norm(node)[:60],
+                          f"`{base}` may be None (a definition that is tracked but not documented) and `.{node.attr}` is read without a "
+                          f"test: AttributeError on a valid file", witness="ct_add_test(NAME t) function(${t}) ... endfunction(t)")
+    rep.ok(rule, f"{ci.module}:{cls}", f"{n} read(s) through the optional documentation field examined")
